@@ -73,6 +73,12 @@ Engine/RepAbs.vos Engine/RepAbs.vok Engine/RepAbs.required_vos: Engine/RepAbs.v 
 Engine/RepProofs.vo Engine/RepProofs.glob Engine/RepProofs.v.beautified Engine/RepProofs.required_vo: Engine/RepProofs.v Engine/PositionRep.vo Engine/EncodingProofs.vo
 Engine/RepProofs.vio: Engine/RepProofs.v Engine/PositionRep.vio Engine/EncodingProofs.vio
 Engine/RepProofs.vos Engine/RepProofs.vok Engine/RepProofs.required_vos: Engine/RepProofs.v Engine/PositionRep.vos Engine/EncodingProofs.vos
+Engine/TimeMgr.vo Engine/TimeMgr.glob Engine/TimeMgr.v.beautified Engine/TimeMgr.required_vo: Engine/TimeMgr.v 
+Engine/TimeMgr.vio: Engine/TimeMgr.v 
+Engine/TimeMgr.vos Engine/TimeMgr.vok Engine/TimeMgr.required_vos: Engine/TimeMgr.v 
+Engine/TimeMgrProofs.vo Engine/TimeMgrProofs.glob Engine/TimeMgrProofs.v.beautified Engine/TimeMgrProofs.required_vo: Engine/TimeMgrProofs.v Engine/TimeMgr.vo
+Engine/TimeMgrProofs.vio: Engine/TimeMgrProofs.v Engine/TimeMgr.vio
+Engine/TimeMgrProofs.vos Engine/TimeMgrProofs.vok Engine/TimeMgrProofs.required_vos: Engine/TimeMgrProofs.v Engine/TimeMgr.vos
 Gen/BitbaseDump.vo Gen/BitbaseDump.glob Gen/BitbaseDump.v.beautified Gen/BitbaseDump.required_vo: Gen/BitbaseDump.v 
 Gen/BitbaseDump.vio: Gen/BitbaseDump.v 
 Gen/BitbaseDump.vos Gen/BitbaseDump.vok Gen/BitbaseDump.required_vos: Gen/BitbaseDump.v 
@@ -184,3 +190,6 @@ Props/Properties_C18.vos Props/Properties_C18.vok Props/Properties_C18.required_
 Props/Properties_C19.vo Props/Properties_C19.glob Props/Properties_C19.v.beautified Props/Properties_C19.required_vo: Props/Properties_C19.v Engine/Book.vo Engine/BookProofs.vo
 Props/Properties_C19.vio: Props/Properties_C19.v Engine/Book.vio Engine/BookProofs.vio
 Props/Properties_C19.vos Props/Properties_C19.vok Props/Properties_C19.required_vos: Props/Properties_C19.v Engine/Book.vos Engine/BookProofs.vos
+Props/Properties_C20.vo Props/Properties_C20.glob Props/Properties_C20.v.beautified Props/Properties_C20.required_vo: Props/Properties_C20.v Engine/TimeMgr.vo Engine/TimeMgrProofs.vo
+Props/Properties_C20.vio: Props/Properties_C20.v Engine/TimeMgr.vio Engine/TimeMgrProofs.vio
+Props/Properties_C20.vos Props/Properties_C20.vok Props/Properties_C20.required_vos: Props/Properties_C20.v Engine/TimeMgr.vos Engine/TimeMgrProofs.vos
